@@ -211,12 +211,21 @@ def _zero_ref(circ: Dict[str, Any]) -> bool:
     return False
 
 
-def guarded(acc: Acc, fn, *args) -> bool:
-    """Run one case; a RecursionError (relation chains beyond the interpreter's recursion limit) is a resource limit of the
-    library's recursive time evaluation, not a verdict: the case is counted as inconclusive and the shard continues."""
+def guarded(acc: Acc, fn, *args, case=None) -> bool:
+    """Run one case.  A RecursionError (relation chains beyond the interpreter's recursion limit) is a resource limit of the
+    library's recursive time evaluation, not a verdict: counted as inconclusive, the shard continues.  Any other exception
+    escaping the case (the library raising on a valid input, or handing the oracle a structure it cannot even read) is a
+    finding with the exception type as mechanism key - on the unchanged tree no case raises."""
+    import traceback
     try:
         fn(*args)
         return True
     except RecursionError:
         acc.count("recursion_inconclusive")
+        return False
+    except Exception as exc:  # noqa: BLE001
+        tb = traceback.extract_tb(exc.__traceback__)
+        where = next((f"{fr.filename.rsplit('/', 1)[-1]}:{fr.name}" for fr in reversed(tb) if "qce_circuit" in fr.filename), "harness")
+        acc.finding(f"exception/{type(exc).__name__}", f"{type(exc).__name__} while checking a valid case (raised in {where}): {str(exc)[:160]}",
+                    case if case is not None else {"args": repr(args[0])[:2000]}, {"traceback": [f"{fr.filename.rsplit('/', 1)[-1]}:{fr.lineno}:{fr.name}" for fr in tb[-6:]]})
         return False
